@@ -34,13 +34,18 @@ func symbolsOf(texts ...string) map[string]bool {
 	return m
 }
 
+var scriptMu sync.Mutex
+
 func (e *Emitter) Script(o *Obligation) string {
+	scriptMu.Lock()
+	defer scriptMu.Unlock()
 	if o.Raw != "" {
 		var b strings.Builder
 		b.WriteString("(set-logic ALL)\n")
 		b.WriteString(basePrelude)
-		b.WriteString(e.ss.Decls())
+		sd := e.ss.Decls()
 		b.WriteString(e.ss.StrDecls())
+		b.WriteString(sd)
 		b.WriteString(o.Raw)
 		b.WriteString("(check-sat)\n")
 		return b.String()
@@ -72,8 +77,9 @@ func (e *Emitter) Script(o *Obligation) string {
 	var b strings.Builder
 	b.WriteString("(set-logic ALL)\n")
 	b.WriteString(basePrelude)
-	b.WriteString(e.ss.Decls())
+	sd := e.ss.Decls()
 	b.WriteString(e.ss.StrDecls())
+	b.WriteString(sd)
 	// spec functions actually referenced (defines may reference earlier ones)
 	need := map[string]bool{}
 	for i := len(e.reg.order) - 1; i >= 0; i-- {
@@ -210,7 +216,7 @@ func Discharge(em *Emitter, obls []*Obligation, dir string, timeout int, workers
 			os.WriteFile(file, []byte(script), 0o644)
 			var r solveOut
 			if o.Kind == "cover" {
-				r = runSolver(context.Background(), solvers[0], file, min(3, timeout))
+				r = runSolver(context.Background(), solvers[0], file, min(2, timeout))
 			} else {
 				to := timeout
 				if failures.Load() >= 8 && to > 3 {
@@ -230,7 +236,7 @@ func Discharge(em *Emitter, obls []*Obligation, dir string, timeout int, workers
 				case "unsat":
 					o.Verdict = "VACUOUS"
 				default:
-					o.Verdict = "COVER-UNKNOWN"
+					o.Verdict = "NO-CONTRADICTION-FOUND"
 				}
 			case r.answer == "unsat":
 				o.Verdict = "DISCHARGED"
